@@ -18,6 +18,7 @@ import (
 	"path/filepath"
 	"sort"
 	"strings"
+	"sync"
 	"time"
 
 	"github.com/btcsuite/btcd/btcec/v2"
@@ -93,19 +94,24 @@ type simInvoice struct {
 
 // World is the environment plus the node under test.
 type World struct {
-	dir   string
-	db    *bbolt.DB
-	store *logStore
-	rs    swap.RequestedSwapsStore
-	ps    *premium.Setting
-	pol   *simPolicy
-	ln    *simLN
-	btc   *simChain
-	lbtc  *simChain
-	msgr  *simMessenger
-	mgr   *simManager
-	svc   *swap.SwapService
-	tmr   *swap.VerifTimeouts
+	mu  sync.Mutex // note/effect/fault/name: the real watchers call in from their own goroutines
+	cfg WorldCfg
+	// realBtcWatcher, when set, replaces the simulated Bitcoin watcher by the REAL txwatcher over a scripted RPC
+	realBtcWatcher  swap.TxWatcher
+	realLbtcWatcher swap.TxWatcher
+	dir             string
+	db              *bbolt.DB
+	store           *logStore
+	rs              swap.RequestedSwapsStore
+	ps              *premium.Setting
+	pol             *simPolicy
+	ln              *simLN
+	btc             *simChain
+	lbtc            *simChain
+	msgr            *simMessenger
+	mgr             *simManager
+	svc             *swap.SwapService
+	tmr             *swap.VerifTimeouts
 
 	obs           []Obs
 	effects       int  // number of effectful calls so far (crash index)
@@ -157,7 +163,7 @@ func newWorld(cfg WorldCfg) *World {
 	if err != nil {
 		panic(err)
 	}
-	w := &World{dir: dir, faults: map[string][]string{}, idNames: map[string]string{}, secrets: map[string]string{}, revealed: map[string]bool{}, openings: map[string]int{}, spentBack: map[string]bool{}, offerSent: map[string]bool{}, cancelTried: map[string]bool{},
+	w := &World{cfg: cfg, dir: dir, faults: map[string][]string{}, idNames: map[string]string{}, secrets: map[string]string{}, revealed: map[string]bool{}, openings: map[string]int{}, spentBack: map[string]bool{}, offerSent: map[string]bool{}, cancelTried: map[string]bool{},
 		anchorSeen: map[string]uint32{}, anchorNow: map[string]bool{}, anchorMoved: map[string]bool{}, paidNoAnchor: map[string]bool{}}
 	w.pol = &simPolicy{w: w, acceptAll: cfg.AcceptAll, allow: map[string]bool{}, susp: map[string]bool{}, minMsat: cfg.MinSwapMsat, allowNew: true}
 	for _, p := range cfg.Allowlist {
@@ -220,8 +226,16 @@ func (w *World) openDB() {
 
 func (w *World) boot(btc, lbtc bool) {
 	w.btcOn, w.lbtcOn = btc, lbtc
+	var btcWatcher swap.TxWatcher = w.btc
+	if w.realBtcWatcher != nil {
+		btcWatcher = w.realBtcWatcher
+	}
+	var lbtcWatcher swap.TxWatcher = w.lbtc
+	if w.realLbtcWatcher != nil {
+		lbtcWatcher = w.realLbtcWatcher
+	}
 	services := swap.NewSwapServices(w.store, w.rs, w.ln, w.msgr, w.mgr, w.pol,
-		btc, w.btc, w.btc, w.btc, lbtc, w.lbtc, w.lbtc, w.lbtc, w.ps)
+		btc, w.btc, w.btc, btcWatcher, lbtc, w.lbtc, w.lbtc, lbtcWatcher, w.ps)
 	w.svc = swap.NewSwapService(services)
 	t, err := w.svc.VerifStart()
 	if err != nil {
@@ -253,6 +267,8 @@ func (w *World) restart() {
 // note appends an observation; immediately repeated identical observations (retry loops) are
 // collapsed into one carrying a repeat marker.
 func (w *World) note(o Obs) {
+	w.mu.Lock()
+	defer w.mu.Unlock()
 	if o.A == nil {
 		o.A = map[string]string{}
 	}
@@ -315,6 +331,8 @@ func sameObs(a, b Obs) bool {
 // When the crash index is reached the call still takes effect but the process dies with it: the
 // caller reports an error to the node.
 func (w *World) effect(kind string) (takesEffect bool, reportErr bool) {
+	w.mu.Lock()
+	defer w.mu.Unlock()
 	if w.dead {
 		return false, true
 	}
@@ -330,6 +348,8 @@ func (w *World) effect(kind string) (takesEffect bool, reportErr bool) {
 
 // fault pops a scripted outcome for a call kind ("" = default behaviour).
 func (w *World) fault(kind string) string {
+	w.mu.Lock()
+	defer w.mu.Unlock()
 	q := w.faults[kind]
 	if len(q) == 0 {
 		return ""
@@ -339,6 +359,8 @@ func (w *World) fault(kind string) string {
 }
 
 func (w *World) name(id string) string {
+	w.mu.Lock()
+	defer w.mu.Unlock()
 	if id == "" {
 		return ""
 	}
